@@ -474,6 +474,12 @@ class Interp:
             if op == 'sdiv': return z3.If((A >= 0) == (B > 0), q, -q)
             r = absA % absB
             return z3.If(A >= 0, r, -r)
+        if op in ('and', 'or', 'xor', 'lshr', 'shl', 'ashr') and bits in (8, 16, 32, 64):
+            # bit-precise fallback: machine-word semantics through bit-vectors (wraps like the hardware), result read back as a signed integer
+            X = z3.Int2BV(A, bits); Y = z3.Int2BV(B, bits)
+            R = {'and': lambda: X & Y, 'or': lambda: X | Y, 'xor': lambda: X ^ Y, 'lshr': lambda: z3.LShR(X, Y), 'shl': lambda: X << Y, 'ashr': lambda: X >> Y}[op]()
+            s.bitprecise_ops = getattr(s, 'bitprecise_ops', 0) + 1
+            return z3.BV2Int(R, is_signed=True)
         raise Unsupported('symbolic int op %s' % op)
     def icmp(s, pred, a, b, bits):
         def sgn(x): return x - (1 << bits) if x >> (bits - 1) else x
